@@ -92,8 +92,8 @@ def wide_one(m, seeds, nvals):
     def cnt(k, n=1):
         stats[k] = stats.get(k, 0) + n
     lines = ["wfill %s %d %d" % (tn, seeds.below(100000), seeds.choice([8, 32, 64, 200])) for tn, _ in m["defs"] for _ in range(nvals)]
-    outs, ev = widefind.run_robust(m["exe"], lines)
-    # a driver death inside asn_random_fill (assertion `range < intmax_max' on INTEGER (0..9223372036854775807)) is a defect
+    outs, ev = widefind.run_robust(m["exe"], lines, line_timeout=6)
+    # a driver death (or a hang: exponential self-recursion) inside asn_random_fill (assertion `range < intmax_max' on INTEGER (0..9223372036854775807)) is a defect
     # of the value SOURCE, not of a codec: the value is unusable
     cnt("wide_fill_crash", len([e for e in ev if e[1] != "EXIT"]))
     vals = {}
@@ -164,7 +164,7 @@ def wide_layer(run, wmods, wrng, tier):
                 kind = "crash:C01-wide(%s)" % syn if st in ("CRASH", "HANG", "EXIT") else "oracle:roundtrip-wide(%s)" % syn
                 run.violation(kind, {"what": "wide layer: encode-then-decode does not return the value: " + st, "module": m["text"], "type": tn,
                                      "type_text": widefind.render(m["asts"][tn]) if tn in m["asts"] else None, "value_der": v, "value_facts": facts,
-                                     "syntax": syn, "status": st, "command_line": cmd, "stderr_tail": err[-2500:],
+                                     "syntax": syn, "status": st, "command_line": cmd, "stderr_tail": err[-6500:],
                                      "replay": "build the module with harness/moddrv.c + harness/moddrv_wide.inc (lib/modbuild.build_modules(moddrv_extra=...)) and feed the command line"})
         if cases:
             run.sample({"wide_module": m["text"][:300], "cmd": cases[0][:120], "c": first[0] if first else None})
